@@ -63,6 +63,20 @@ def rquat(q, zero, one):
     return m
 
 
+def _qdot(q, w, half):
+    """d/de of q (x) exp(e*w) at 0 = 1/2 q (x) (w, 0), q = (x, y, z, w)"""
+    x, y, z, s = q
+    wx, wy, wz = w
+    return [half * (s * wx + y * wz - z * wy),
+            half * (s * wy + z * wx - x * wz),
+            half * (s * wz + x * wy - y * wx),
+            -half * (x * wx + y * wy + z * wz)]
+
+
+def _matvec(M, v):
+    return [sum((M[i, j] * v[j] for j in range(1, len(v))), M[i, 0] * v[0]) for i in range(M.shape[0])]
+
+
 class GroupSpec:
     """Layout + matrix model of one group.  `c` is always the flat coefficient
     vector (list / 1-d object array of ring elements)."""
@@ -90,6 +104,11 @@ class GroupSpec:
 
     def rot_part(self, c):     # coefficient sub-vector that must be unit norm (or None)
         return None
+
+    def lift(self, c, d):
+        """coefficient-level derivative of X*exp(eps*d) at eps=0 (list, same length as c).
+        Verified (not trusted): the check discharges D T(c)[lift(c,d)] == T(c)*hat(d)."""
+        raise NotImplementedError
 
     # ---- derived
     def I(self):
@@ -128,6 +147,11 @@ class SO2Spec(GroupSpec):
         m[0, 1], m[1, 0] = -th, th
         return m
 
+    def lift(self, c, d):
+        re, im = _lst(c)
+        (th,) = _lst(d)
+        return [-im * th, re * th]
+
     def hom(self, p):
         return col(_lst(p) + [self.one])
 
@@ -157,6 +181,11 @@ class SE2Spec(GroupSpec):
         m[0, 2], m[1, 2] = x, y
         return m
 
+    def lift(self, c, d):
+        x, y, re, im = _lst(c)
+        dx, dy, th = _lst(d)
+        return [re * dx - im * dy, im * dx + re * dy, -im * th, re * th]
+
     def hom(self, p):
         return col(_lst(p) + [self.one])
 
@@ -181,6 +210,10 @@ class SO3Spec(GroupSpec):
         m = _zeros(4, 4, self.zero)
         m[:3, :3] = skew3(t, self.zero)
         return m
+
+    def lift(self, c, d):
+        half = self.one / 2
+        return _qdot(_lst(c), _lst(d), half)
 
     def hom(self, p):
         return col(_lst(p) + [self.one])
@@ -210,6 +243,12 @@ class SE3Spec(GroupSpec):
         m[:3, :3] = skew3(t[3:6], self.zero)
         m[0, 3], m[1, 3], m[2, 3] = t[0], t[1], t[2]
         return m
+
+    def lift(self, c, d):
+        c, d = _lst(c), _lst(d)
+        half = self.one / 2
+        R = rquat(c[3:7], self.zero, self.one)
+        return _matvec(R, d[0:3]) + _qdot(c[3:7], d[3:6], half)
 
     def hom(self, p):
         return col(_lst(p) + [self.one])
@@ -244,6 +283,12 @@ class SE23Spec(GroupSpec):
             m[i, 3] = t[i]
             m[i, 4] = t[6 + i]
         return m
+
+    def lift(self, c, d):
+        c, d = _lst(c), _lst(d)
+        half = self.one / 2
+        R = rquat(c[3:7], self.zero, self.one)
+        return _matvec(R, d[0:3]) + _qdot(c[3:7], d[3:6], half) + _matvec(R, d[6:9])
 
     def hom(self, p):
         # a point: affected by rotation and translation only
@@ -282,6 +327,14 @@ class SGal3Spec(GroupSpec):
         m[3, 4] = t[9]
         return m
 
+    def lift(self, c, d):
+        c, d = _lst(c), _lst(d)
+        half = self.one / 2
+        R = rquat(c[3:7], self.zero, self.one)
+        Rrho, Rnu = _matvec(R, d[0:3]), _matvec(R, d[3:6])
+        pdot = [Rrho[i] + c[7 + i] * d[9] for i in range(3)]
+        return pdot + _qdot(c[3:7], d[6:9], half) + Rnu + [d[9]]
+
     def hom(self, p):
         # a point at time 0: (p, 0, 1)
         return col(_lst(p) + [self.zero, self.one])
@@ -308,6 +361,9 @@ class RnSpec(GroupSpec):
         for i in range(self.n):
             m[i, self.n] = t[i]
         return m
+
+    def lift(self, c, d):
+        return _lst(d)
 
     def hom(self, p):
         return col(_lst(p) + [self.one])
@@ -353,6 +409,12 @@ class BundleSpec(GroupSpec):
         for o, e, te in zip(self.offsets("msize"), self.elems, self.split(t, "dof")):
             m[o:o + e.msize, o:o + e.msize] = e.hat(te)
         return m
+
+    def lift(self, c, d):
+        out = []
+        for e, ce, de in zip(self.elems, self.split(c, "rep"), self.split(d, "dof")):
+            out += e.lift(ce, de)
+        return out
 
     def hom(self, p):
         rows = []
